@@ -533,7 +533,7 @@ class Tracer:
                 self.cur = out
                 return out
             raise Untranslatable("F.pad outside the known idiom")
-        if ftxt == "torch.cat":
+        if ftxt in ("torch.cat", "torch.concatenate", "torch.concat"):
             items = list(args[0])
             dim = kwargs.get("dim", args[1] if len(args) > 1 else 0)
             if dim != 1 or not all(isinstance(t, Tok) for t in items):
